@@ -1207,6 +1207,14 @@ def roundtrip_case(ctx, tree_seed, label, kind='VCALENDAR'):
         ctx.violation('emitted-nesting', inp, f'{len(scanned)} top-level components emitted')
         return
     check_node(ctx, inp, c, node, scanned[0], parsed, node.kind)
+    # the other serialisation order carries the same tree (every depth)
+    try:
+        from harness.trees import canon_tree, tree_of
+        pu = icalendar.Component.from_ical(c.to_ical(sorted=False))
+        if canon_tree(tree_of(pu)) != canon_tree(tree_of(parsed)):
+            ctx.violation('unsorted-serialisation-differs', inp, 'parsing to_ical(sorted=False) gives another tree than parsing to_ical()')
+    except Exception as e:  # noqa: BLE001
+        ctx.violation('unsorted-serialisation-raises', inp, f'{type(e).__name__}: {e}')
 
 
 # ---- clause 2: every RFC 5545 property name decodes with the RFC type -----------------------------------
